@@ -180,6 +180,8 @@ def boson_search(chk, n_cases):
         a = np.array([[rng.gauss(0, 1) + 1j * rng.gauss(0, 1) for _ in range(d)] for _ in range(d)])
         rho0 = a @ a.conj().T
         rho0 /= np.trace(rho0)
+        if it % 2 == 1:
+            rho0 = np.asfortranarray(rho0)          # same values, Fortran memory order (complex coherences: not symmetric)
         ck = rng.choice(["power", "power", "customsd", "customcorr"])
         T = rng.choice([0.0, 0.02, 0.2, 2.0]) if it >= 2 else 0.02      # 0.02: cold but non-zero (overflow-guard branch of eta_function)
         if ck == "power":
@@ -208,7 +210,7 @@ def boson_search(chk, n_cases):
             O = V @ np.diag(o) @ V.conj().T
             H = V @ np.diag(E) @ V.conj().T
             bath = oqupy.Bath(O, corr)
-        info = {"d": d, "o": list(o), "corr": ck, "T": T, "dt": dt, "n": n, "dkmax": dkmax, "tau_add": tau, "rotated": not np.allclose(V, np.eye(d)), "unique": unique}
+        info = {"d": d, "o": list(o), "corr": ck, "T": T, "dt": dt, "n": n, "dkmax": dkmax, "tau_add": tau, "rotated": not np.allclose(V, np.eye(d)), "unique": unique, "initial_state_order": "F" if it % 2 == 1 else "C"}
         try:
             t = oqupy.Tempo(oqupy.System(H), bath, par, rho0, 0.0, unique=unique)
             st_t = np.array(quiet(t.compute, n * dt, progress_type="silent").states)
